@@ -63,6 +63,22 @@ def gen(ctx, keys=False):
             main = "ccec%02x" % rng.choice([0x20, 0x33, 0x51, 0x80]) + body
             main += "13%02x" % (len(main) // 2 + 2)
             handler = "".join(pre(b) for b in hbody)
+        elif rng.random() < 0.3:
+            # LCD traffic: display on, a page select (often 4-7), a column select and data writes spread over the main loop,
+            # so that snapshot points fall between the select and the data that depends on it
+            chip = rng.choice([0x2008, 0x2004, 0xA008, 0x2000])           # left, right, left (mirror window), both
+            wr = lambda addr, v: "08%02x" % v + "a8" + addr.to_bytes(3, "little").hex()
+            lcd = [wr(chip, 0x3F), wr(chip, 0xB8 | rng.choice([0, 3, 4, 5, 6, 7])), wr(chip, 0x40 | rng.choice([0, 5, 62, 63]))]
+            lcd += [wr(chip | 2, rng.randrange(1, 256)) for _ in range(rng.randint(2, 5))]
+            mixed = []
+            rest = list(blocks)
+            for b in lcd:
+                mixed.append(b)
+                if rest and rng.random() < 0.6:
+                    mixed.append(rest.pop())
+            main = "".join(mixed + rest)
+            main += "13%02x" % (len(main) // 2 + 2)
+            nsteps = max(nsteps, 2 * len(lcd) + 8)
         ev = ",".join(evs) or "-"
         cases.append((imr0, ten, mti, sti, main, handler, nsteps, ev))
     return cases
@@ -76,7 +92,7 @@ def boundaries(code, base):
     """instruction start addresses of a code string placed at base"""
     out, i = set(), 0
     b = bytes.fromhex(code)
-    L = {0x00: 1, 0x30: 4, 0xCC: 3, 0xDE: 1, 0xDF: 1, 0x09: 2, 0xEF: 1, 0x6C: 2, 0x13: 2, 0x01: 1}
+    L = {0x00: 1, 0x30: 4, 0x08: 2, 0xA8: 4, 0xCC: 3, 0xDE: 1, 0xDF: 1, 0x09: 2, 0xEF: 1, 0x6C: 2, 0x13: 2, 0x01: 1}
     while i < len(b):
         out.add(base + i)
         i += L[b[i]]
